@@ -1,12 +1,13 @@
 package props
 
 import (
-	"sync"
 	"bytes"
 	"encoding/hex"
 	"encoding/json"
 	"sort"
 	"strings"
+	"sync"
+	"sync/atomic"
 	"unicode/utf8"
 
 	"github.com/vektah/gqlparser/v2/ast"
@@ -145,7 +146,47 @@ func runC19(c *core.Ctx) {
 		}
 		c.Seen(strings.Contains(texts[i], "..."), []byte(texts[i]))
 	})
-	c.Evals += int64(nDocs)
+	// the scale family: wide selection sets, argument, directive, variable and value lists, many
+	// operations and fragments, deep nesting, long strings and names: decode(encode(doc)) is the parsed
+	// document (implementation-side oracle, three times each: a decoder that works concurrently must
+	// still give the same document); tied to the model up to a hundred elements and 256-byte pieces
+	var scale []string
+	for _, k := range ScaleDocs() {
+		scale = append(scale, k.Query)
+	}
+	scale = append(scale, WideQueryDocs()...)
+	tied := map[string]bool{}
+	for _, k := range ScaleDocsUpTo(101, 256) {
+		if k.Tag != "deep100" {
+			tied[k.Query] = true
+		}
+	}
+	var nScale int64
+	c.Pool.ParFor(len(scale), func(w, i int) {
+		orig, err := parser.ParseQuery(&ast.Source{Input: scale[i], Name: "q"})
+		if err != nil {
+			return
+		}
+		want := "ok " + DumpQueryDoc(orig, false)
+		atomic.AddInt64(&nScale, 1)
+		for rep := 0; rep < 3; rep++ {
+			impl := c.Impl(w, "json", []byte(scale[i]))
+			k := strings.Index(impl, "|")
+			if k < 0 || impl[k+1:] != want {
+				got := impl[k+1:]
+				c.ReportOracle("json-roundtrip", map[string]interface{}{"op": "json", "args": []string{hexs(scale[i])}, "input": scale[i][:min(300, len(scale[i]))], "bytes": len(scale[i]),
+					"difference": diffAt(want, got), "note": "Marshal then Unmarshal must give back the same operations, fragments and selections, in order"})
+				return
+			}
+			if rep == 0 && tied[scale[i]] {
+				if v, cur, none := c.Tie(w, "json", impl, []byte(scale[i])); v == core.Violation {
+					c.Report(w, "json", thm, [][]byte{[]byte(scale[i])}, impl, cur, none)
+				}
+			}
+		}
+	})
+	c.Count("scale_documents", nScale)
+	c.Evals += int64(nDocs) + 3*nScale
 	c.Programs = int64(nDocs)
 	c.Sample(map[string]string{"document": texts[0]})
 	c.Sample(map[string]string{"document": texts[1]})
